@@ -319,6 +319,14 @@ Proof.
         destruct v0; try (inversion H; subst; apply ext_refl). destruct (arr_get l z); inversion H; subst; apply ext_refl.
       * (* array_length *)
         ib H. inversion H; subst. eapply IHe; eauto.
+      * (* unary string builtin *)
+        ib H. inversion H; subst. eapply IHe; eauto.
+      * (* binary string builtin *)
+        ib H. ib H. apply of_ibin_ok in H. destruct H as [H _]; subst.
+        eapply ext_trans; [eapply IHe; exact E|eapply IHe; exact E0].
+      * (* str_substring *)
+        ib H. ib H. ib H. inversion H; subst.
+        eapply ext_trans; [eapply IHe; exact E|]. eapply ext_trans; [eapply IHe; exact E0|eapply IHe; exact E1].
     + red. intros s w c w' H. destruct s; simpl in H.
       * inversion H; apply ext_refl.
       * ib H. pose proof (IHs _ _ _ _ E) as X. destruct v; try (inversion H; subst; exact X).
